@@ -164,7 +164,59 @@ def extras():
     return c
 
 
+def _pat(n, lo=1, span=250):
+    return bytes((i % span) + lo for i in range(n))
+
+
+def _boundary():
+    """components whose lengths / counts cross a representation boundary (255 / 256 / 257 with one- and two-byte length
+    fields, wide integers, long bit runs), with the function that builds their bytes for a given size N"""
+    c, b = {}, {}
+
+    def add(name, fn, enc):
+        c[name] = (fn, set())
+        b[name] = enc
+    add('dn2', lambda i: [('n%d' % i, I(2)), ('d%d' % i, D(F('n%d' % i)))], lambda N: N.to_bytes(2, 'big') + _pat(N))
+    add('dn2l', lambda i: [('n%d' % i, I(2, end='little')), ('d%d' % i, D(F('n%d' % i)))], lambda N: N.to_bytes(2, 'little') + _pat(N))
+    add('dn3', lambda i: [('n%d' % i, I(3)), ('d%d' % i, D(F('n%d' % i)))], lambda N: N.to_bytes(3, 'big') + _pat(N))
+    add('sn2', lambda i: [('n%d' % i, I(2)), ('l%d' % i, S(I(1), F('n%d' % i)))], lambda N: N.to_bytes(2, 'big') + _pat(N))
+    add('sn2w', lambda i: [('n%d' % i, I(2)), ('l%d' % i, S(I(2, end='little'), F('n%d' % i)))], lambda N: N.to_bytes(2, 'big') + _pat(2 * N))
+    add('sr2', lambda i: [('n%d' % i, I(2)), ('l%d' % i, S(R(PT), F('n%d' % i)))], lambda N: N.to_bytes(2, 'big') + _pat(2 * N))
+    add('dd2', lambda i: [('n%d' % i, dict(I(2), desc={'k': 'autolength', 'of': 'd%d' % i})), ('d%d' % i, D(F('n%d' % i)))],
+        lambda N: N.to_bytes(2, 'big') + _pat(N))
+    add('dm0', lambda i: [('d%d' % i, DM(b'\x00'))], lambda N: _pat(N) + b'\x00')
+    add('dmab', lambda i: [('d%d' % i, DM(b'ab'))], lambda N: _pat(N, 110, 100) + b'ab')
+    add('su0', lambda i: [('l%d' % i, S(I(1), until={'u': 'last_eq', 'v': 0}))], lambda N: _pat(N - 1) + b'\x00')
+    return c, b
+
+
+BOUNDARY, BOUNDARY_BYTES = _boundary()
 EXTRA = extras()
+EXTRA.update(BOUNDARY)
+
+
+def boundary_specs(sizes=(255, 256, 257), wrappers='ab', cut=True):
+    """declarations over the boundary components with the inputs that cross the boundaries: exact encodings for each size,
+    the same with one byte missing, and (one-byte length fields) 255"""
+    specs = []
+    for name, enc in BOUNDARY_BYTES.items():
+        for w in wrappers:
+            ins = []
+            for N in sizes:
+                body = enc(N) + b'\x07'
+                raw = {'a': body, 'b': b'\x09' + body, 'c': b'\x01' + body}[w]
+                ins.append(raw)
+                if cut:
+                    ins.append(raw[:-2])
+            specs.append({'names': [name, 'i1'], 'wrapper': w, 'extra_inputs': ins})
+    for name, mk in (('dn', lambda N: bytes([N]) + _pat(N)), ('sn', lambda N: bytes([N]) + _pat(N)), ('sr', lambda N: bytes([N]) + b'\x01Q' * N)):
+        ins = [mk(255) + b'\x07', mk(255)[:-1], mk(254) + b'\x07']
+        specs.append({'names': [name, 'i1'], 'wrapper': 'a', 'extra_inputs': ins})
+    # wide integers and a bit run longer than eight bytes
+    for name in ('x9defu', 'x9lits', 'x9locs', 'x9netu'):
+        specs.append({'names': [name, 'i1'], 'wrapper': 'a',
+                      'extra_inputs': [bytes(range(1, 10)) + b'\x07', b'\xff' * 9 + b'\x07', b'\x80' + b'\x00' * 8 + b'\x07', bytes(range(1, 9))]})
+    return specs
 
 # one representative per mechanism, used for pairs in the quick tier and triples in the thorough tier
 REDUCED = ['i1', 'i2l', 'i3', 'dn', 'dx', 'm0', 'mab', 'rx', 'rxlb', 'b35', 'r1', 'rs', 'rst', 'sn', 'ss', 'su', 'suo', 'sua', 'sw', 'sa', 'sr', 'o1', 'oz', 'os', 'or',
@@ -196,6 +248,8 @@ def scan(P):
     def node_feats(node, top):
         k = node['k']
         feats.add(k)
+        if node.get('desc'):
+            feats.add('described')
         p = node.get('pos')
         if p:
             feats.add('pos')
